@@ -5,7 +5,10 @@ checks isolation (PrintIsEarliest / AllPrintedAtEnd over the healthy sources), t
 exit status.  Crash-freedom is decided by execution: fault plans (kind x container x fault class x position class
 x neighbours) are concretised over valid base files of every kind: every truncation point (thorough) or a stratified
 sample (quick), single- and multi-byte corruptions in magic / header / trailer / payload classes, random byte strings
-of assorted lengths, valid content under every mismatching name, alone and next to 1..3 valid sources."""
+of assorted lengths, valid content under every mismatching name, container-level faults (good gzip member followed by
+trailing bytes or further members with a size trailer that claims less / as much / more than the member holds, streams
+back to back, tar archives cut or extended or with a member size beyond the archive), alone and next to 1..3 valid
+sources."""
 import os
 import random
 import shutil
@@ -84,6 +87,47 @@ def must_have(name, data, kind):
             yield ("flip1@%s" % cls(p, n), bytes(b), name)
 
 
+def structural(name, data, kind):
+    """container-level faults every run includes: well-formed pieces put together wrongly.  gz: a good member followed
+    by trailing bytes / further members whose last four bytes (the size the reader trusts) claim less, as much, or
+    more than the first member inflates to; a single member with a wrong size field.  bz2 / xz / lz4: two streams back
+    to back, a stream followed by padding or noise.  tar: data after the end-of-archive blocks, archive cut at a
+    512-byte bound, a member header that claims more data than the archive holds."""
+    import gzip
+    import struct
+    if kind.endswith(".gz"):
+        plain = gzip.decompress(data)
+        n = len(plain)
+        claims = [0, 1, n - 1, n, n + 1, n + 7, n + 100, 2 * n, n + 65536, 0xFFFFFFFF]
+        for c in claims:
+            c &= 0xFFFFFFFF
+            yield ("gz-trailing8-claims%+d" % (c - n), data + b"\0\0\0\0" + struct.pack("<I", c), name)
+            yield ("gz-trailing64-claims%+d" % (c - n), data + b"\x55" * 60 + struct.pack("<I", c), name)
+            yield ("gz-isize%+d" % (c - n), data[:-4] + struct.pack("<I", c), name)
+        for extra in (plain[: n // 2], plain, plain + plain[: 100], b"x"):
+            yield ("gz-two-members(%d+%d)" % (n, len(extra)), data + gzip.compress(extra), name)
+        yield ("gz-empty-member-first", gzip.compress(b"") + data, name)
+        yield ("gz-three-members", data + gzip.compress(b"") + data, name)
+    elif kind.endswith((".bz2", ".xz", ".lz4")):
+        yield ("two-streams", data + data, name)
+        yield ("stream+zeros4", data + b"\0" * 4, name)
+        yield ("stream+zeros512", data + b"\0" * 512, name)
+        yield ("stream+noise", data + bytes(range(7, 71)), name)
+        yield ("stream+magic", data + data[:6], name)
+    elif kind.endswith(".tar"):
+        yield ("tar+noise", data + bytes(range(256)) * 2, name)
+        yield ("tar+tar", data + data, name)
+        for cut in (512, 1024, len(data) - 1024, len(data) - 512):
+            if 0 < cut < len(data):
+                yield ("tar-cut@%d" % cut, data[:cut], name)
+        b = bytearray(data)
+        b[124:136] = b"00000777777\0"      # size field of the first member: far beyond the archive
+        yield ("tar-size-beyond", bytes(b), name)
+        chk = sum(b[:148]) + 8 * 32 + sum(b[156:512])
+        b[148:156] = b"%06o\0 " % chk
+        yield ("tar-size-beyond-checksum-ok", bytes(b), name)
+
+
 def faults(name, data, kind, tier, rng):
     """yield (fault label, faulted bytes, file name)"""
     n = len(data)
@@ -158,6 +202,7 @@ def run(pid, tier, seed):
                 rng.shuffle(fl)
                 fl = fl[: max(20, budget // len(base))]
             fl += list(must_have(name, data, kind))
+            fl += list(structural(name, data, kind))
             for label, fdata, fname in fl:
                 plans.append((kind, label, fdata, fname))
         # valid content under mismatching names
@@ -200,6 +245,8 @@ def run(pid, tier, seed):
         samples = []
         for (case, kind, label, exp_valid, letters), (rr, left) in zip(cases, runs):
             fc = label.split("@")[0].rstrip("0123456789") if not label.startswith("misnamed") else "misnamed"
+            if fc.startswith(("gz-", "tar", "two-streams", "stream+")):
+                fc = "structural"
             distinct.add((kind, label, case.note["neighbours"]))
             if rr.timed_out:
                 rep.violation("hang:%s:%s" % (kind, fc), "no exit within %.0fs (%s, %s)" % (WALL_BOUND_S, kind, label), case.replay_record(rr))
